@@ -223,6 +223,8 @@ fn doc_texts() -> Vec<String> {
         "<?xml version=\"1.0\"?><!--pre--><r x=\"1\"><a x=\"2\">t<b/>u</a><!--in--></r><!--post-->".to_string(),
     ];
     v.push("<r><a>1</a><a>2<a>3</a></a><b x=\"it's\" y='say \"hi\"'/></r>".to_string());
+    v.push("<!--pre--><?pp?><!DOCTYPE r><!--mid--><r><c/><!--in--><c x=\"1\"/></r><!--post-->".to_string());
+    v.push("<r><a>x&amp;y</a><a>1<![CDATA[2]]></a><a>p<!--c-->q</a><a>&#65;B</a></r>".to_string());
     v
 }
 
@@ -255,6 +257,16 @@ fn path_exprs() -> Vec<(Expr, &'static str)> {
         (bin(Op::Div, num("1"), num("0")), "number"),
         (bin(Op::Div, num("0"), num("0")), "number"),
         (path(true, vec![dslash(), step(Axis::Child, NodeTest::PI(None))]), "pi-nodes"),
+        // selections that depend on text nodes, node counts and string-values (the merged-text view)
+        (path(true, vec![dslash(), stepp(Axis::Child, NodeTest::Any, vec![bin(Op::Eq, path(false, vec![step(Axis::SelfAxis, NodeTest::Node)]), lit("xent<y>A2"))])]), "by-string-value"),
+        (path(true, vec![dslash(), stepp(Axis::Child, NodeTest::Any, vec![bin(Op::Eq, call("count", vec![path(false, vec![step(Axis::Child, NodeTest::Node)])]), num("3"))])]), "by-node-count"),
+        (path(true, vec![dslash(), stepp(Axis::Child, NodeTest::Any, vec![bin(Op::Eq, path(false, vec![step(Axis::Child, NodeTest::Text)]), lit("xent<y>A"))])]), "by-text-node"),
+        (path(true, vec![dslash(), stepp(Axis::Child, NodeTest::Any, vec![path(false, vec![stepp(Axis::Child, NodeTest::Node, vec![num("2")]), step(Axis::SelfAxis, NodeTest::Text)])])]), "by-node-position"),
+        (path(true, vec![dslash(), stepp(Axis::Child, NodeTest::Any, vec![call("contains", vec![path(false, vec![step(Axis::SelfAxis, NodeTest::Node)]), lit("&")])])]), "by-string-value"),
+        // axes that cross the DOCTYPE at the top level
+        (path(true, vec![dslash(), stepp(Axis::Child, name("c"), vec![path(false, vec![step(Axis::Preceding, NodeTest::PI(Some("pp".into())))])])]), "across-doctype"),
+        (path(true, vec![step(Axis::Child, name("r")), step(Axis::PrecedingSibling, NodeTest::Node), step(Axis::FollowingSibling, NodeTest::Any)]), "across-doctype"),
+        (path(true, vec![stepp(Axis::Child, NodeTest::Comment, vec![num("1")]), step(Axis::FollowingSibling, NodeTest::Any)]), "across-doctype"),
     ]
 }
 
@@ -567,10 +579,15 @@ impl Space for Cli {
                                         }
                                         _ => format!("<not an attribute: {}>", line),
                                     },
-                                    XKind::Text if !has_dtd => {
-                                        let unesc = line.replace("&lt;", "<").replace("&gt;", ">").replace("&amp;", "&");
-                                        format!("text({:?})", unesc)
-                                    }
+                                    // any spelling of the characters is a serialization of the text node: references and
+                                    // CDATA sections are read back with the reference parser
+                                    XKind::Text if !has_dtd => match wf::recognise(&format!("<w>{}</w>", line)) {
+                                        wf::Verdict::WellFormed(ld) => match XTree::from_adoc(&ld) {
+                                            Ok(lt) => format!("text({:?})", lt.string_value(lt.nodes[0].children[0])),
+                                            Err(e) => format!("<{}>", e),
+                                        },
+                                        _ => format!("<not character data: {}>", line),
+                                    },
                                     XKind::Comment => format!("comment({:?})", line.strip_prefix("<!--").and_then(|x| x.strip_suffix("-->")).unwrap_or(line)),
                                     _ => want.clone(),
                                 };
@@ -602,7 +619,7 @@ impl Check for C17C {
     }
     fn meta(&self) -> Meta {
         Meta {
-            rule: "the real xe and xq binaries (compiled from /repo/xpath/examples as bins of the harness crate) run as processes: stdin document, arguments from the product of 11 documents (attributes, nested same-named elements, comments/PIs, namespaces, DTD default + references + CDATA, XML declaration, values with quotes) x 26 selecting paths (elements, nested selections, one element, attributes, the document node, empty selection, scalars, text / comment / PI nodes, unions, filters, prefixed names, nested predicates, a variable) x 19 replacement values (empty, text, references, elements with attributes / nesting / prefixes, mixed, CDATA, comment, PI, ill-formed, quote characters) x {--no-indent, pretty} x {no --setns, prefix, default, malformed}; plus unusable expressions and ill-formed documents for both tools. Oracle: reference parser -> reference XPath selection -> children of exactly the selected element / attribute / document nodes replaced by the parsed value -> expected document; xe's compact stdout is parsed back WITH THE REFERENCE PARSER and must denote it; xq's compact stdout must be one serialization per selected node in document order (elements parsed back and compared as trees), or the scalar. Unusable input (ill-formed document or value, bad expression, non-node result or unsupported node kind for xe): non-zero exit, a message on stderr, no panic, no signal. Non-trivial = the reference expects a result (not a refusal).",
+            rule: "the real xe and xq binaries (compiled from /repo/xpath/examples as bins of the harness crate) run as processes: stdin document, arguments from the product of 13 documents (attributes, nested same-named elements, comments/PIs, namespaces, DTD default + references + CDATA, XML declaration, values with quotes) x 34 selecting paths (selections by string-value / text node / node count, axes across the DOCTYPE, elements, nested selections, one element, attributes, the document node, empty selection, scalars, text / comment / PI nodes, unions, filters, prefixed names, nested predicates, a variable) x 19 replacement values (empty, text, references, elements with attributes / nesting / prefixes, mixed, CDATA, comment, PI, ill-formed, quote characters) x {--no-indent, pretty} x {no --setns, prefix, default, malformed}; plus unusable expressions and ill-formed documents for both tools. Oracle: reference parser -> reference XPath selection -> children of exactly the selected element / attribute / document nodes replaced by the parsed value -> expected document; xe's compact stdout is parsed back WITH THE REFERENCE PARSER and must denote it; xq's compact stdout must be one serialization per selected node in document order (elements parsed back and compared as trees), or the scalar. Unusable input (ill-formed document or value, bad expression, non-node result or unsupported node kind for xe): non-zero exit, a message on stderr, no panic, no signal. Non-trivial = the reference expects a result (not a refusal).",
             bounds_quick: "every combination in which at most 2 of the 5 factors (document, path, value, --setns, indentation) differ from their default value; xq: at most 3 of 4",
             bounds_thorough: "the full product",
             assumptions: &["pretty-printed output is only checked for exit status and absence of a crash (the statement constrains the compact output)", "number results: Rust's or XPath's spelling of NaN and the infinities are both accepted"],
